@@ -2,6 +2,7 @@
 Require Extraction.
 Require Import ExtrOcamlBasic.
 From Coq Require Import ZArith.
-From Verif.C01 Require Import Model Extracted.
+From Verif.C01 Require Import Model ModelTree Extracted.
 Extraction "model_ml.ml" escape unescape node_name utf8_valid read_at dump step st0 run complete get_blob added
-  consistent_b no_cross_b all_retrievable_b indexed_typed written Z.of_N.
+  consistent_b no_cross_b all_retrievable_b indexed_typed written Z.of_N
+  ls node_from_path lookup_binary_search lookup_compares_stored capture restore_time restore_time_direct read_blobs.
